@@ -36,7 +36,7 @@ def _shard(args):
     i, seed, ff_args, out = args
     t0 = time.time()
     with open(out, "w") as fo:
-        p = subprocess.run([os.path.join(vlib.BUILD, "ff"), "-seed", str(seed)] + [str(a) for a in ff_args],
+        p = subprocess.run([vlib.exe("ff"), "-seed", str(seed)] + [str(a) for a in ff_args],
                            stdout=fo, stderr=subprocess.PIPE, env=vlib.GOENV, timeout=3000)
     return dict(shard=i, seed=seed, rc=p.returncode, err=p.stderr.decode("utf-8", "replace")[-2000:],
                 secs=time.time() - t0, path=out)
